@@ -76,6 +76,10 @@ func mkGraph(r *lib.RNG, twoRefs, twoDeps, blockField, twoSrc bool, rstart, dsta
 	return g
 }
 
+// orphanSeed: a chain seed for which the replacement fork has a transfer whose sender was
+// created on that fork (found by search; any such seed shows the limit)
+const orphanSeed = 2
+
 // run0: configuration anomalies (a wrong Dependencies set is never the known lookup limit)
 func run0(r *ts.Run) []string { return r.W.ConfigAnomalies }
 
@@ -233,6 +237,33 @@ func run(cfg lib.Cfg) error {
 			sc.Acts = append(sc.Acts, ts.Act{Do: "step", Tid: 2}, ts.Act{Do: "step", Tid: 1})
 		}
 		judge(sc, "corpus-reference-unwinds-between-retries", true, nil)
+	}
+	// corpus for the KNOWN limit (known_findings/C05.json, C05-reference-on-orphaned-chain): the
+	// reference sits at position 8 of the chain that a reorg (fork 5) orphans and is not stepped
+	// again; the dependent, still on the common prefix, indexes the replacement blocks 5..8:
+	// its dependency bound 8 is satisfied by NUMBER, its lookups see the rows of the orphaned
+	// blocks, and senders created on the replacement fork are missed.
+	{
+		g := graph{}
+		g.igs = []ts.IGSpec{
+			{Name: "a-dep", Shape: "dep", Table: "d1", Ref: "r-one", RefLo: 1, Hdr: true, Sources: []ts.SrcRef{{Name: "main", Start: 1}}},
+			{Name: "r-one", Shape: "created", Table: "r1", Hdr: true, Sources: []ts.SrcRef{{Name: "main", Start: 1}}},
+		}
+		sc := mk("corpus-reference-on-orphaned-chain", g, 8, 1, 1, orphanSeed)
+		for k := 0; k < 8; k++ {
+			sc.Acts = append(sc.Acts, ts.Act{Do: "step", Tid: 2})
+		}
+		for k := 0; k < 4; k++ {
+			sc.Acts = append(sc.Acts, ts.Act{Do: "step", Tid: 1})
+		}
+		sc.Acts = append(sc.Acts, ts.Act{Do: "reorg", Fork: 5, Len: 6})
+		for k := 0; k < 4; k++ {
+			sc.Acts = append(sc.Acts, ts.Act{Do: "step", Tid: 1})
+		}
+		for k := 0; k < 10; k++ {
+			sc.Acts = append(sc.Acts, ts.Act{Do: "step", Tid: 2}, ts.Act{Do: "step", Tid: 1})
+		}
+		judge(sc, "corpus-reference-on-orphaned-chain", true, nil)
 	}
 	nre := 10
 	if cfg.Thorough() {
